@@ -67,6 +67,9 @@ def correspond(ctx):
         nobj += k
         if f:
             raise core.ImplViolation(dict(kind="input", kernel="K-objects", input=f["input"], failure=f))
+    for inp, f in _n1_corpus(ca):
+        if not matches_known(ctx, "K-objects", inp, f):
+            raise core.ImplViolation(dict(kind="input", kernel="K-objects", input=inp, failure=f))
     ctx.coverage["objects_checked_on_impl"] = nobj
     ctx.count("evaluations", nobj)
 
@@ -92,14 +95,27 @@ def _fix(cls, text, kw, native):
     except Exception as ex:  # noqa
         return f"rendered text {l1!r} of {cls.__name__}({text!r}) is rejected: {type(ex).__name__}: {ex}"
     l2 = o2.line
-    if native:
-        if l2 != l1 or _strip(o2.data()) != _strip(o1.data()):
-            return f"{cls.__name__}({text!r}, {kw}): re-parsing the rendered text {l1!r} gives {l2!r} / other data"
-        return None
-    o3 = cls(l2, **kw)
-    if o3.line != l2 or _strip(o3.data()) != _strip(o2.data()):
-        return f"{cls.__name__}({text!r}, {kw}): text not stable from the first re-parse on: {l1!r} -> {l2!r} -> {o3.line!r}"
+    # one step, for every accepted spelling: the rendered text re-parses to itself with the same data
+    if l2 != l1 or _strip(o2.data()) != _strip(o1.data()):
+        return f"{cls.__name__}({text!r}, {kw}): re-parsing the rendered text {l1!r} gives {l2!r} / other data"
     return None
+
+
+N1_TEXTS = ["0.0.0.0/0", "10.0.0.0/0", "1.2.3.4/0"]
+
+
+def _n1_corpus(ca):
+    """zero-length prefixes and the other spellings of 'every address', on both platforms"""
+    out = []
+    for plat in ("ios", "nxos"):
+        for t in N1_TEXTS + ["any", "0.0.0.0 255.255.255.255", "1.1.1.1 255.255.255.255", "0.0.0.0/32", "host 0.0.0.0"]:
+            w = _fix(ca.Address, t, dict(platform=plat), False)
+            if w:
+                out.append(({"class": "Address", "text": t, "kw": {"platform": plat}}, {"what": w}))
+            w = _fix(ca.Ace, f"permit ip {t} any", dict(platform=plat), False)
+            if w:
+                out.append(({"class": "Ace", "text": f"permit ip {t} any", "kw": {"platform": plat}}, {"what": w}))
+    return out
 
 
 def oracle(ctx, kernel, meta):
@@ -234,8 +250,24 @@ def search(ctx):
 
 
 def known_lines(ctx):
-    return []
+    ca = core.impl_module()
+    out = []
+    for f in core.load_findings("C06"):
+        if f["status"] != "known":
+            continue
+        if f["id"] == "N1" and any(matches_known(ctx, "K-objects", i, w) for i, w in _n1_corpus(ca)):
+            out.append(f"{f['id']}: {f['what']}")
+        else:
+            ctx.notes.append(f"known finding {f['id']} no longer reproduces")
+    return out
 
 
 def matches_known(ctx, kernel, meta, failure):
+    """N1: a zero-length prefix 'A.B.C.D/0' given to an IOS Address / ACE renders '0.0.0.0 255.255.255.255',
+    which re-parses to 'any'.  Only that spelling on that platform."""
+    import re
+    if (meta.get("class") in ("Address", "Ace") and meta.get("kw", {}).get("platform") == "ios"
+            and re.search(r"(^|\s)\d+\.\d+\.\d+\.\d+/0(\s|$)", meta.get("text", ""))
+            and "0.0.0.0 255.255.255.255" in failure.get("what", "")):
+        return "N1"
     return None
